@@ -992,3 +992,44 @@ def variant_guards(fn, site_bb, prov=None):
             if edge_dominates(fn, bi, t["otherwise"], None, site_bb):
                 out.append((prov.place(dstmt["place"]), rest[0]))
     return out
+
+
+# ------------------------------------------------------------------------------------------------
+# Thin forwarding helpers: "fn calls G" should not depend on whether a one-line helper sits in between.
+
+def forwarding_calls(F, fn, target_suffix, depth=2):
+    """Call sites in `fn` that reach `target_suffix`: direct calls, plus calls to a workspace helper in which every
+    path from entry to a normal return passes such a call (recursively, bounded).  For a forwarded call the
+    returned tuples carry an argument map helper-param-index -> target-arg-index so that provenance of the target's
+    arguments can be traced back to the outer call's operands.  -> [(outer Call, {target arg idx: outer arg idx})]"""
+    out = []
+    for c in fn.calls:
+        if facts_suffix(c.path, target_suffix):
+            out.append((c, {i: i for i in range(len(c.args))}))
+            continue
+        if depth <= 0:
+            continue
+        h = F.fns.get(c.cid)
+        if h is None or h is fn or h.kind == "Closure":
+            continue
+        inner = forwarding_calls(F, h, target_suffix, depth - 1)
+        if not inner:
+            continue
+        bbs = [ic.bb for ic, _ in inner]
+        if not h.must_pass(0, bbs):
+            continue
+        hp = Prov(h)
+        ic, imap = inner[0]
+        amap = {}
+        for ti, hi in imap.items():
+            e = hp.operand(ic.args[hi])
+            e = strip(e)
+            if e[0] == "param" and 1 <= e[2] <= len(c.args):
+                amap[ti] = e[2] - 1
+        out.append((c, amap))
+    return out
+
+
+def facts_suffix(path, pat):
+    from .facts import suffix_match
+    return suffix_match(path, pat)
